@@ -86,11 +86,26 @@ def _coverage(fi: FuncInfo, recv: ast.AST, first: str, rest: str, depth: int = 4
     if recv.id == first:
         return {"first"}
 
+    def unpack_source(name: str):
+        """the element expression bound to `name` by `a, b = (X, Y)` (the right side may be a local holding the pair)"""
+        for x in walk_no_nested(fn):
+            if isinstance(x, ast.Assign) and isinstance(x.targets[0], (ast.Tuple, ast.List)) and not any(isinstance(t, ast.Starred) for t in x.targets[0].elts):
+                names = [t.id if isinstance(t, ast.Name) else None for t in x.targets[0].elts]
+                if name in names:
+                    v = _resolve1(fn, x.value)
+                    if isinstance(v, (ast.Tuple, ast.List)) and len(v.elts) == len(names):
+                        return v.elts[names.index(name)]
+        return None
+
     def coll_cov(e: ast.AST) -> set[str]:
         if isinstance(e, ast.Name):
             if e.id == rest:
                 return {"rest"}
             out = set()
+            src = unpack_source(e.id)
+            if isinstance(src, ast.Subscript) and isinstance(src.slice, ast.Slice) and isinstance(src.slice.lower, ast.Constant) and src.slice.lower.value == 1 and src.slice.upper is None and src.slice.step is None:
+                if coll_cov(src.value) >= {"first", "rest"}:
+                    out.add("others")  # all[1:] — the complement of the selected element all[0]
             for v in all_def_values(fn, e.id):
                 if v is not None:
                     out |= coll_cov(v)
@@ -124,6 +139,9 @@ def _coverage(fi: FuncInfo, recv: ast.AST, first: str, rest: str, depth: int = 4
             for t in x.targets[0].elts:
                 if isinstance(t, ast.Name) and t.id == recv.id and coll_cov(x.value) >= {"first", "rest"}:
                     out.add("one")
+    src = unpack_source(recv.id)
+    if isinstance(src, ast.Subscript) and isinstance(src.slice, ast.Constant) and src.slice.value == 0 and coll_cov(src.value) >= {"first", "rest"}:
+        out.add("one")  # all[0] of a collection that holds every catalog
     return out
 
 
@@ -326,6 +344,20 @@ def rule_r2(prog, res) -> None:
             raise AnalysisError(f"C01.R2: counting redshift {unparse(z) if z is not None else '?'} is not an element of the bin centres (idiom not recognised)")
     fn = prune.node
     groups = symx.explore_with_nested(prog, prune, inline=pol)
+    # generator helpers of the module that the pruning function consumes (e.g. one that yields the largest angle per
+    # bin centre) belong to its computation: they are explored as well
+    seen_gen = {prune}
+    frontier = [prune]
+    for _ in range(2):
+        nxt = []
+        for f_ in frontier:
+            for c_ in calls_in(f_):
+                for t_ in prog.resolve_call(f_, c_).funcs():
+                    if t_.module is prune.module and t_ not in seen_gen and any(isinstance(y, (ast.Yield, ast.YieldFrom)) for y in walk_no_nested(t_.node)):
+                        seen_gen.add(t_)
+                        nxt.append(t_)
+                        groups.extend(symx.explore_with_nested(prog, t_, inline=pol))
+        frontier = nxt
     pts = []
     exprs = []
     for g, paths in groups:
@@ -954,12 +986,13 @@ def rule_r8(prog, res) -> None:
 def rule_r9(prog, res) -> None:
     """separation weighting works for every configuration that asks for it: the resolution of the weighting grid is
     optional in the configuration (declared `int | None`), so a value read from the configuration must not reach the
-    arithmetic of get_ang_bins unguarded — followed from the arithmetic use up the call chain (symbolic store)"""
+    arithmetic of get_ang_bins unguarded — followed from the arithmetic use up the call chain on the symbolic store:
+    at each call site the argument is a constant, a value that the path has tested against None, a parameter of the
+    caller (followed further up), or an attribute whose declared type admits None (violation)"""
     from .. import symx
 
     gb = prog.func("get_ang_bins")
     res.touch(gb)
-    # the parameter that is used in arithmetic on the weighting path
     arith = set()
     for x in walk_no_nested(gb.node):
         if isinstance(x, ast.BinOp):
@@ -970,13 +1003,12 @@ def rule_r9(prog, res) -> None:
         raise AnalysisError("C01.R9: no parameter of get_ang_bins is used in arithmetic (weighting grid size not recognised)")
 
     def optional_ann(e_orig, fi) -> str | None:
-        """the declared type of an attribute read when it admits None"""
         if not isinstance(e_orig, ast.Attribute):
             return None
         for ty in prog.func_env(fi).type_of(e_orig.value):
             if ty[0] == "cls":
                 for c_ in prog.mro(ty[1]):
-                    ann = getattr(c_, "class_ann", {}).get(e_orig.attr) if hasattr(c_, "class_ann") else None
+                    ann = getattr(c_, "class_ann", {}).get(e_orig.attr)
                     if ann is not None:
                         t = unparse(ann)
                         if "None" in t or "Optional" in t:
@@ -985,64 +1017,67 @@ def rule_r9(prog, res) -> None:
 
     checked = 0
     problems = []
+    seen = set()
 
     def follow(f, param, depth):
+        """all call sites of f: what is bound to `param` there"""
         nonlocal checked
-        if depth > 3:
+        if depth > 4 or (f.key, param) in seen:
             return
-        callers = [(g, c) for g in prog.funcs for c in calls_in(g) if f in prog.resolve_call(g, c).funcs()]
-        for g, c in callers:
-            pos = [q for q in f.param_names() if q not in ("self", "cls")]
-            orig = kwarg(c, param)
-            if orig is None and param in pos and pos.index(param) < len(c.args):
-                orig = c.args[pos.index(param)]
-            if orig is None:
-                continue  # the callee's own default applies
-            checked += 1
-            res.touch(g)
-            if isinstance(orig, ast.Constant):
-                if orig.value is None:
-                    problems.append((g, c, f"{f.name}({param}=None)"))
+        seen.add((f.key, param))
+        pos = [q for q in f.param_names() if q not in ("self", "cls")]
+        for g in prog.funcs:
+            sites = [c for c in calls_in(g) if f in prog.resolve_call(g, c).funcs()]
+            if not sites:
                 continue
-            ann = optional_ann(orig, g)
-            # is the value guarded against None on the way to this call?
-            guarded = False
-            for p in symx.explore(prog, g, skip_tests=("logger",)):
-                for ev in p.calls():
-                    if ev.node is c:
-                        a_sub = kwarg(ev.expr, param) or (ev.expr.args[pos.index(param)] if param in pos and pos.index(param) < len(ev.expr.args) else None)
-                        txt = unparse(a_sub) if a_sub is not None else ""
-                        if a_sub is not None and unparse(orig) != txt and not (isinstance(a_sub, ast.Attribute) and optional_ann(orig, g)):
-                            guarded = True  # replaced by something else (a default, `x or 50`, a conditional expression)
-                        if any((unparse(t) in (f"{txt} is None",) and not pol) or (unparse(t) in (f"{txt} is not None",) and pol) for t, pol in p.literals()):
-                            guarded = True
-            if ann is not None and not guarded:
-                problems.append((g, c, f"{unparse(orig)} (declared {ann})"))
-            elif isinstance(orig, ast.Name) and orig.id in g.param_names() and not guarded:
-                follow(g, orig.id, depth + 1)
-
-    # is the parameter guarded inside a function before it is handed on?
-    def guarded_inside(f, param) -> bool:
-        for x in walk_no_nested(f.node):
-            if isinstance(x, ast.If) and isinstance(x.test, ast.Compare) and isinstance(x.test.left, ast.Name) and x.test.left.id == param and any(isinstance(o, (ast.Is, ast.IsNot)) for o in x.test.ops):
-                return True
-            if isinstance(x, ast.Assign) and any(isinstance(t, ast.Name) and t.id == param for t in x.targets) and isinstance(x.value, (ast.BoolOp, ast.IfExp)):
-                return True
-        return False
+            res.touch(g)
+            try:
+                paths = symx.explore(prog, g, skip_tests=("logger",), inline=lambda *a_: False)
+            except symx.TooManyPaths:
+                continue
+            for c in sites:
+                verdicts = set()
+                for p in paths:
+                    for ev in p.calls():
+                        if ev.node is not c:
+                            continue
+                        a_sub = kwarg(ev.expr, param)
+                        if a_sub is None and param in pos and pos.index(param) < len(ev.expr.args):
+                            a_sub = ev.expr.args[pos.index(param)]
+                        if a_sub is None:
+                            verdicts.add(("default", None))
+                            continue
+                        a_sub = symx.strip_wrappers(a_sub)
+                        txt = unparse(a_sub)
+                        facts = {unparse(t): pol for t, pol in p.literals()}
+                        tested = facts.get(f"{txt} is None") is False or facts.get(f"{txt} is not None") is True or facts.get(txt) is True
+                        if isinstance(a_sub, ast.Constant):
+                            verdicts.add(("none", None) if a_sub.value is None else ("const", None))
+                        elif tested:
+                            verdicts.add(("guarded", None))
+                        elif isinstance(a_sub, ast.Name) and a_sub.id in g.param_names():
+                            verdicts.add(("param", a_sub.id))
+                        elif isinstance(a_sub, ast.Attribute) and optional_ann(a_sub, g):
+                            verdicts.add(("optional", f"{txt} (declared {optional_ann(a_sub, g)})"))
+                        elif isinstance(a_sub, ast.BoolOp) and isinstance(a_sub.op, ast.Or) and isinstance(a_sub.values[-1], ast.Constant) and a_sub.values[-1].value is not None:
+                            verdicts.add(("guarded", None))
+                        else:
+                            verdicts.add(("other", None))
+                if not verdicts:
+                    continue
+                checked += 1
+                for kind, what in sorted(verdicts, key=str):
+                    if kind == "none":
+                        problems.append((g, c, f"{f.name}({param}=None)"))
+                    elif kind == "optional":
+                        problems.append((g, c, what))
+                    elif kind == "param":
+                        follow(g, what, depth + 1)
+                if not any(k in ("none", "optional") for k, _ in verdicts):
+                    res.ok("C01.R9", res.site(g, f"{f.name}({param}=…)"), "the value is a constant, tested against None on the path, or a parameter followed to its callers")
 
     for param in sorted(arith):
-        # callers of get_ang_bins hand the value on from their own parameter: follow it unless they guard it
-        for g in prog.funcs:
-            for c in calls_in(g):
-                if gb in prog.resolve_call(g, c).funcs():
-                    pos = gb.param_names()
-                    a_ = kwarg(c, param) or (c.args[pos.index(param)] if pos.index(param) < len(c.args) else None)
-                    if isinstance(a_, ast.Name) and a_.id in g.param_names():
-                        if guarded_inside(g, a_.id):
-                            checked += 1
-                            res.ok("C01.R9", res.site(g, f"{a_.id} is None"), f"{g.name} replaces a missing {a_.id} before it reaches the arithmetic of get_ang_bins")
-                        else:
-                            follow(g, a_.id, 0)
+        follow(gb, param, 0)
     if checked == 0:
         raise AnalysisError("C01.R9: the resolution of the weighting grid could not be followed to its origin")
     for g, c, what in problems:
